@@ -143,11 +143,71 @@ pub struct Tin {
     pub c: u8,
     pub pad: String,
 }
-#[derive(Serialize, Deserialize, Clone, Debug, PartialEq, Default)]
+/// The result record of every typed handler kind. `fail` (never on the wire) makes its `Serialize` impl FAIL after it has
+/// already produced some output: the handler returned a value, but the library cannot encode it as a response body.
+#[derive(Deserialize, Clone, Debug, PartialEq, Default)]
 pub struct Tout {
     pub t: u64,
     pub r: String,
     pub pad: String,
+    #[serde(skip)]
+    pub fail: u8,
+}
+
+/// `Tout::fail` values. With fail == 0 the impl below produces exactly what `#[derive(Serialize)]` would.
+/// the impl returns a custom error after the fields `t` and `r` have been written
+pub const FAIL_MID: u8 = 1;
+/// the field `pad` is a map whose key is a tuple: serde_json writes `..."pad":{` and then refuses the key
+pub const FAIL_TUPLE_KEYS: u8 = 2;
+/// all three fields are written, then the impl returns a custom error instead of closing the record
+pub const FAIL_LATE: u8 = 3;
+/// the impl returns a custom error before anything is written
+pub const FAIL_EARLY: u8 = 4;
+pub const FAIL_MODES: [u8; 4] = [FAIL_MID, FAIL_TUPLE_KEYS, FAIL_LATE, FAIL_EARLY];
+
+/// How a request asks a typed handler for an unserializable result: `Tin::c >= 0x10` on a success op.
+pub fn fail_of(c: u8) -> u8 {
+    if c >= 0x10 { c >> 4 } else { 0 }
+}
+pub fn fail_name(fail: u8) -> &'static str {
+    match fail {
+        FAIL_MID => "result-serialize-fails-after-two-fields",
+        FAIL_TUPLE_KEYS => "result-has-map-with-tuple-keys",
+        FAIL_LATE => "result-serialize-fails-before-closing",
+        FAIL_EARLY => "result-serialize-fails-at-once",
+        _ => "well-formed",
+    }
+}
+
+struct TupleKeys<'a>(u64, &'a str);
+impl Serialize for TupleKeys<'_> {
+    fn serialize<S: serde::Serializer>(&self, s: S) -> Result<S::Ok, S::Error> {
+        use serde::ser::SerializeMap;
+        let mut m = s.serialize_map(Some(1))?;
+        m.serialize_entry(&(self.0, 7u8), self.1)?;
+        m.end()
+    }
+}
+
+impl Serialize for Tout {
+    fn serialize<S: serde::Serializer>(&self, s: S) -> Result<S::Ok, S::Error> {
+        use serde::ser::{Error, SerializeStruct};
+        if self.fail == FAIL_EARLY {
+            return Err(S::Error::custom(format!("result {} refuses to be serialized", self.t)));
+        }
+        let mut st = s.serialize_struct("Tout", 3)?;
+        st.serialize_field("t", &self.t)?;
+        st.serialize_field("r", &self.r)?;
+        match self.fail {
+            FAIL_MID => return Err(S::Error::custom(format!("result {} cannot be serialized past its second field", self.t))),
+            FAIL_TUPLE_KEYS => st.serialize_field("pad", &TupleKeys(self.t, &self.pad))?,
+            _ => st.serialize_field("pad", &self.pad)?,
+        }
+        if self.fail == FAIL_LATE {
+            return Err(S::Error::custom(format!("result {} cannot be closed", self.t)));
+        }
+        st.end()
+    }
 }
 
 /// Find the request record in whatever shape a built-in kind hands it to the handler
@@ -189,7 +249,7 @@ fn typed_logic(sid: u8, t: T, r: Tin) -> Result<TypedResponse<Tout>, (ErrorCode,
     if r.op == OP_ERR_PAD {
         return Err((code_of(r.c), r.pad));
     }
-    let out = Tout { t: r.t, r: t.path().to_string(), pad: r.pad };
+    let out = Tout { t: r.t, r: t.path().to_string(), pad: r.pad, fail: fail_of(r.c) };
     match r.op {
         1 => Err((code_of(r.c), format!("handler error {}", r.t))),
         3 => Ok(TypedResponse::beve(out)),
@@ -245,7 +305,7 @@ impl JsonTypedHandler for Jth {
         if r.op == OP_ERR_PAD {
             return Err((code_of(r.c), r.pad));
         }
-        Ok(Tout { t: r.t, r: T::Jth.path().to_string(), pad: r.pad })
+        Ok(Tout { t: r.t, r: T::Jth.path().to_string(), pad: r.pad, fail: fail_of(r.c) })
     }
 }
 
@@ -260,7 +320,7 @@ pub struct St {
 impl St {
     fn echo(&mut self, arg: Tin) -> Tout {
         ev(self.sid, EV_H, arg.t, T::StEcho as u8);
-        Tout { t: arg.t, r: T::StEcho.path().to_string(), pad: arg.pad }
+        Tout { t: arg.t, r: T::StEcho.path().to_string(), pad: arg.pad, fail: fail_of(arg.c) }
     }
 }
 
